@@ -329,9 +329,67 @@ pub struct TableOp {
     pub data: Vec<u8>,
     /// override for max_uncompressed_length (fault injection); None = exact
     pub max_len: Option<u32>,
+    /// simulated codec only, diffs only: the output ends with this many leading bytes of the dictionary
+    pub copy: u32,
 }
 
-pub fn table_keyed_patch(compat: &[u8; 16], ops: &[TableOp]) -> Vec<u8> {
+// ------------------------------------------------------------ simulated codec (decoder seam)
+//
+// A stand-in for a compressed stream whose meaning depends on the dictionary it was encoded against,
+// which stored brotli meta-blocks cannot express. `SimDecoder` decodes it; the real C decoder never sees it.
+//   magic[4]  mode(u8: 0 = encoded without a dictionary, 1 = encoded against the base table)
+//   copy(u32) literal_len(u32) literal
+// decode(stream, dict): mode 0 with a dictionary or mode 1 without one is an invalid stream (as a
+// brotli stream decoded against the wrong dictionary is); output = literal ++ dict[..copy].
+pub const SIM_MAGIC: [u8; 4] = [0xCE, b'S', b'I', b'M'];
+
+pub fn sim_stream(literal: &[u8], against_dictionary: bool, copy: u32) -> Vec<u8> {
+    let mut w = W::new();
+    w.bytes(&SIM_MAGIC);
+    w.u8(against_dictionary as u8);
+    w.u32(copy);
+    w.u32(literal.len() as u32);
+    w.bytes(literal);
+    w.0
+}
+
+/// None: not a simulated stream. Some(Err(kind)): invalid (kind as in `decode_error_kind`).
+pub fn sim_decode(stream: &[u8], dict: Option<&[u8]>, max: usize) -> Option<Result<Vec<u8>, u8>> {
+    if stream.len() < 4 || stream[..4] != SIM_MAGIC {
+        return None;
+    }
+    if stream.len() < 13 {
+        return Some(Err(1));
+    }
+    let mode = stream[4];
+    let copy = u32::from_be_bytes([stream[5], stream[6], stream[7], stream[8]]) as usize;
+    let len = u32::from_be_bytes([stream[9], stream[10], stream[11], stream[12]]) as usize;
+    if mode > 1 || stream.len() < 13 + len {
+        return Some(Err(1));
+    }
+    if stream.len() > 13 + len {
+        return Some(Err(4));
+    }
+    match (mode, dict) {
+        (0, Some(_)) => return Some(Err(1)),
+        (1, None) => return Some(Err(2)),
+        _ => {}
+    }
+    let mut out = stream[13..13 + len].to_vec();
+    if mode == 1 {
+        let d = dict.unwrap_or(&[]);
+        if copy > d.len() {
+            return Some(Err(1));
+        }
+        out.extend_from_slice(&d[..copy]);
+    }
+    if out.len() > max {
+        return Some(Err(3));
+    }
+    Some(Ok(out))
+}
+
+pub fn table_keyed_patch(compat: &[u8; 16], ops: &[TableOp], sim: bool) -> Vec<u8> {
     let mut w = W::new();
     w.bytes(b"iftk");
     w.u32(0);
@@ -346,9 +404,14 @@ pub fn table_keyed_patch(compat: &[u8; 16], ops: &[TableOp]) -> Vec<u8> {
         w.patch_u32(offsets_at + i * 4, at);
         w.bytes(&op.tag);
         w.u8(op.flags);
-        w.u32(op.max_len.unwrap_or(op.data.len() as u32));
+        let copy = if sim && op.flags == 0 { op.copy } else { 0 };
+        w.u32(op.max_len.unwrap_or(op.data.len() as u32 + copy));
         if op.flags & 2 == 0 {
-            w.bytes(&brotli_stored(&op.data));
+            if sim {
+                w.bytes(&sim_stream(&op.data, op.flags == 0, copy));
+            } else {
+                w.bytes(&brotli_stored(&op.data));
+            }
         }
     }
     let end = w.len() as u32;
@@ -397,7 +460,7 @@ pub fn glyph_patches_stream(p: &GlyphPatchSpec) -> Vec<u8> {
     w.0
 }
 
-pub fn glyph_keyed_patch(compat: &[u8; 16], p: &GlyphPatchSpec, max_len_override: Option<u32>) -> Vec<u8> {
+pub fn glyph_keyed_patch(compat: &[u8; 16], p: &GlyphPatchSpec, max_len_override: Option<u32>, sim: bool) -> Vec<u8> {
     let stream = glyph_patches_stream(p);
     let mut w = W::new();
     w.bytes(b"ifgk");
@@ -405,7 +468,11 @@ pub fn glyph_keyed_patch(compat: &[u8; 16], p: &GlyphPatchSpec, max_len_override
     w.u8(if p.wide { 1 } else { 0 });
     w.bytes(compat);
     w.u32(max_len_override.unwrap_or(stream.len() as u32));
-    w.bytes(&brotli_stored(&stream));
+    if sim {
+        w.bytes(&sim_stream(&stream, false, 0));
+    } else {
+        w.bytes(&brotli_stored(&stream));
+    }
     w.0
 }
 
